@@ -17,7 +17,7 @@ for d in sorted(glob.glob('/verif/seeded/*-*')):
     for p, ck in m.get('checks', {}).items():
         if ck.get('exit') == 1 and ck.get('violations', 0) > 0:
             caught.append(p + ' (' + ', '.join(k.replace('kind=', '') for k in ck.get('kinds', [])[:3]) + ')')
-    tests_ok = '100%' in str(m.get('tests', ''))
+    tests_ok = '100%' in str(m.get('tests', '')) or '233 passed' in str(m.get('tests', ''))
     if benign:
         alarms = [p for p, ck in m.get('checks', {}).items() if ck.get('exit') != 0]
         verdict = ('silent on all %d checks' % len(m.get('checks', {}))) if not alarms else '**ALARM: ' + ', '.join(alarms) + '**'
@@ -35,7 +35,7 @@ with open('/verif/seeded/README.md', 'w') as f:
         f.write('| ' + ' | '.join(r) + ' |\n')
     n = len(rows); c = sum(1 for r in rows if 'not caught' not in r[5])
     f.write(f'\n{c} of {n} stored property-breaking changes are caught by the quick check of the property they were written '
-            'against (ids: plain = round 1, R2- = round 2, R3- = the "interaction" round, R4- = the "mixed simulators, several entities, long runs" round).\n')
+            'against (ids: plain = round 1, R2- = round 2, R3- = the "interaction" round, R4- = the "mixed simulators, several entities, long runs" round, R5- = the "unusual but legal use" round of the third session).\n')
     f.write('\n## Behaviour-preserving changes (must NOT be reported)\n\nRefactorings, renames of private names, equivalent '
             'micro-optimisations and reworded messages written by sub-agents; all 18 quick checks are run against each.\n\n'
             '| id | file(s) | change | suite | result |\n|---|---|---|---|---|\n')
